@@ -304,6 +304,30 @@ PROPS["C02"] = {
     "nontrivial_op": None,
 }
 
+PROPS["C19"] = {
+    "streams": [{"name": "metrics"}, {"name": "view"}],
+    "model_is_spec": ["metrics"],
+    "spec_theorem": "the model response announces its body's length, carries every boolean as 1 for true, the nanosecond metrics in nanoseconds, one port_state sample per port and one path_trace_list sample per entry, and label values that un-escape to the original (C19.content_length_matches_body, boolean_metrics, nanosecond_metrics, label_escape_roundtrip)",
+    "rule": "metrics: end to end through the real exporter process. Observable states (grandmaster / slave / boundary clock; 1 … 64 ports in every "
+            "port state and delay mechanism incl. P2P link delays up to i64::MAX; path trace lists of 0, 1, 2, 5, 127, 128 distinct entries; offsets "
+            "and mean delays 0, 1 ns … ±10 s incl. bit patterns of 2^63-1, 2^63, 2^64+1; every time-properties combination, clock accuracy and time "
+            "source incl. profile specific and reserved codes; UTC offset absent / extreme; version strings with quotes, backslashes, line feeds and "
+            "non-ASCII; uptimes as Instant::elapsed().as_secs_f64() gives them up to 12 years) are written as a JSON document, read by the "
+            "daemon's serde representations (ObservableState: Deserialize), written again by them (Serialize, as observer::write_json does), "
+            "served on a unix socket the way the observer does (one write, close), fetched by the real statime-metrics-exporter process "
+            "(read_json, format_response) and scraped over HTTP. Compared with the Lean model of the formatter: the whole HTTP response, "
+            "byte for byte. Independent oracle on the response: status 200, Content-Length = octets of the body, every line of the "
+            "OpenMetrics text grammar (HELP/TYPE before samples, UNIT suffix, label syntax and escapes, numeric values), and the set of "
+            "samples equals an independently written table (every metric by the meaning of its help text and unit suffix, true as 1, "
+            "nanosecond metrics in nanoseconds, values exactly equal as binary64). FMT ops: the model's rendering of binary64 values "
+            "against Rust's `{}` on random, integral, fixed-point and special bit patterns. view: C11's stream - the snapshot getters against the "
+            "instance's live data sets. distinct = distinct op lines",
+    "explanation": "Lean model of format.rs (metric table, label escaping, layout, Content-Length) incl. Rust's shortest-round-trip float rendering; theorems over every state; end-to-end byte-exact correspondence through serde_json, the socket and the exporter process",
+    "assumptions": ["serde_json itself is not modelled: that a document written by the daemon reads back as the same state is established by the end-to-end runs (state in, samples out), not by a theorem",
+                    "the observation socket delivers what the observer wrote (one write_all, then close), as the harness's socket does",
+                    "PortDS fields that no metric shows (log intervals, versions, asymmetry, master_only) and default_ds.domain / sdo_id / slave_only are carried through the JSON hop but not observable at the endpoint"],
+}
+
 PROPS["C17"] = {
     "streams": [{"name": "inst"}, {"name": "tlv"}, {"name": "timed"}, {"name": "threads", "model": False}],
     "model_is_spec": ["inst", "tlv", "timed"],
@@ -392,6 +416,8 @@ def projection(pid, stream, profile):
         def f3(op, obs):
             return "panic" if "R panic" in obs else "returned"
         return f3
+    if pid == "C19" and stream == "view":
+        return projection("C11", stream, profile)
     if pid in ("C13", "C02"):
         def f13(op, obs):
             return "R panic" if obs.startswith("R panic") else obs
